@@ -82,6 +82,10 @@ def int_decls(tier='quick') -> List[Decl]:
         out.append(mk('int_%s_ge_le_lit' % t, 'int', t,
                       validators=[Validator('greater_or_equal', aux.lit_bound(1, t)), Validator('less_or_equal', aux.lit_bound(100, t))],
                       derives=INT_VIEW_DERIVES + ['TryFrom'], props=['C01', 'C03', 'C05', 'C07', 'C11', 'C13']))
+        # const_fn with a (const) custom sanitizer and predicate
+        out.append(mk('int_%s_san_pred_le_const' % t, 'int', t, const_fn=True, sanitizers=[Sanitizer('with', s1)],
+                      validators=[Validator('predicate', fn=p), Validator('less_or_equal', aux.lit_bound(100, t))], aux=[n5, n3],
+                      derives=['Debug', 'Clone', 'Copy', 'TryFrom', 'Into'], props=['C01', 'C03', 'C05', 'C07']))
         # const_fn twin
         out.append(mk('int_%s_ge_le_lit_const' % t, 'int', t, const_fn=True,
                       validators=[Validator('greater_or_equal', aux.lit_bound(1, t)), Validator('less_or_equal', aux.lit_bound(100, t))],
